@@ -306,7 +306,7 @@ class DMRS(scope.ScopingSemanticStructure):
         if self.top is not None:
             top_node = self[self.top]
             top = next((label for label, nodes in scopes.items()
-                        if top_node in nodes),
+                        if any(node is top_node for node in nodes)),
                        None)
 
         return top, scopes
